@@ -55,7 +55,8 @@ def dec_q(neg, mant, ex):
 # ------------------------------------------------------------------ matrices
 def gen_pattern(rng, kind=None):
     """-> (kind, nrow, ncol, colptr, rowind) 0-based, rows sorted inside a column"""
-    kinds = ["random", "random", "random", "diag", "dense", "empty", "onecol", "rect", "emptycols", "long", "bigindex"]
+    kinds = ["random", "random", "random", "random", "random", "random", "diag", "diag", "dense", "dense", "empty", "empty",
+             "onecol", "onecol", "rect", "rect", "rect", "emptycols", "emptycols", "long", "bigindex", "bigindex"]
     kind = kind or rng.choice(kinds)
     if kind == "empty":
         n = rng.randint(0, 4); m = rng.randint(0, 4)
@@ -71,7 +72,7 @@ def gen_pattern(rng, kind=None):
         rows = sorted(rng.sample(range(m), rng.randint(1, m)))
         return kind, m, 1, [0, len(rows)], rows
     if kind == "long":
-        m = n = rng.randint(60, 260); dens = rng.uniform(0.01, 0.06)
+        m = n = rng.randint(60, 200); dens = rng.uniform(0.01, 0.05)
     elif kind == "bigindex":
         # few entries, very large dimensions (wide integer fields)
         n = rng.randint(1, 6); m = rng.choice([99999, 1000000, 123456789, 2147483646])
@@ -81,9 +82,9 @@ def gen_pattern(rng, kind=None):
             ri += rows; cp.append(len(ri))
         return kind, m, n, cp, ri
     elif kind == "rect":
-        m = rng.randint(1, 40); n = rng.randint(1, 40); dens = rng.uniform(0.05, 0.5)
+        m = rng.randint(1, 30); n = rng.randint(1, 30); dens = rng.uniform(0.05, 0.4)
     else:
-        m = n = rng.randint(1, 40); dens = rng.uniform(0.03, 0.5)
+        m = n = rng.randint(1, 30); dens = rng.uniform(0.03, 0.4)
     cp, ri = [0], []
     for j in range(n):
         if kind == "emptycols" and rng.random() < 0.5:
@@ -102,11 +103,11 @@ def gen_decimal(rng, nsig, exlo, exhi, allow_zero=True):
     nd = rng.randint(1, max(1, nsig))
     if rng.random() < 0.5:
         nd = max(1, nsig)
-    first = rng.randint(1, 9)
-    rest = [rng.randint(0, 9) for _ in range(nd - 1)]
-    if rng.random() < 0.15:
-        rest = [rng.choice([0, 9])] * (nd - 1)
-    mant = int(str(first) + "".join(map(str, rest)))
+    r = rng.random()
+    if r < 0.15 and nd > 1:
+        mant = int(str(rng.randint(1, 9)) + rng.choice("09") * (nd - 1))
+    else:
+        mant = rng.randrange(10 ** (nd - 1), 10 ** nd)
     x = rng.randint(exlo, exhi)            # exponent of the leading digit
     return (rng.random() < 0.5, mant, x - (nd - 1))
 
